@@ -38,9 +38,9 @@ class LUW(dict):
 
 
 BSK = ['bv_to_sparse', 'sparse_to_bv', 'bv_sparse_bv', 'sparse_bv_sparse']
-for (l, m, tier) in ((8, 2, 'quick'), (8, 0, 'thorough'), (8, 8, 'deep'), (16, 3, 'deep'), (65, 2, 'deep')):
+for (l, m, tier) in ((8, 2, 'quick'), (4, 1, 'quick'), (8, 0, 'thorough'), (8, 8, 'deep'), (16, 3, 'deep'), (65, 2, 'deep')):
     for kind, kn in enumerate(BSK):
-        inst(P, 'c11_%s_l%d_m%d' % (kn, l, m), CC('bv_sparse', l, m, kind), tier=tier, unwind=10, stubs=SPARSE + ONES, cap=1200, cap_thorough=3600, mem=12, weight=m + 1,
+        inst(P, 'c11_%s_l%d_m%d' % (kn, l, m), CC('bv_sparse', l, m, kind), tier=(tier if kn in ('bv_to_sparse', 'bv_sparse_bv') else 'deep'), unwind=10, stubs=SPARSE + ONES, cap=1200, cap_thorough=3600, mem=12, weight=m + 1,
              desc='%s: %d-bit vector with %d symbolic set positions; converted structure == the one built directly by the target builder, same bits' % (kn, l, m),
              shape={'len': l, 'ones': m, 'conversion': kn}).unwindset = LUW(l, m, {})
 
@@ -54,4 +54,4 @@ for (l, m, tier) in ((7, 2, 'deep'), (7, 3, 'deep'), (7, 0, 'deep')):
 extra(P, assumptions=['the number of set bits is fixed per instance (RawVector::count_ones stub returns the constant and cuts other popcounts): sizes of the target builders are then concrete',
                       'embedded bitvectors of SparseVector answer through specification stubs (their supports are not built, so == compares bits and low parts); RL sample indexes through the contract stub',
                       'equality (==, derived over all fields) is asserted; byte-identical serialization follows because serialize() is a function of exactly those fields (checked per type in C06/C07)'],
-      coverage={'outside_bounds': ['vectors longer than 65 bits / more than 8 set bits', 'conversion chains longer than 2', 'run-length conversions beyond 7 bits (thorough tier only, heavy)']})
+      coverage={'outside_bounds': ['vectors longer than 65 bits / more than 8 set bits', 'conversion chains longer than 2', 'conversions that START from a builder-made SparseVector (sparse_to_bv, sparse_bv_sparse) and all run-length conversions exceed 12 GB even at 4 bits and are in the deep tier; SparseVector -> BitVector is exercised in the quick tier as the second half of the bv -> sparse -> bv chain']})
